@@ -33,45 +33,59 @@ theorem total_exact_invariant (evMax : Nat) (sel : Option Nat) (ops : List DbOp)
     TotalExact (run (Db.new evMax sel) ops) :=
   total_run _ ops (new_total evMax sel)
 
-/-
-FULL STATEMENT (false on the unchanged tree, D3):
-  theorem counters_exact (evMax sel ops) : CountersExact (run (Db.new evMax sel) ops)
-`written` is left too high when `insert` overflows a `Written` record out of the buffer.
--/
+/-- `counters_exact`: `total` AND `written` counters equal the per-class / per-type counts of
+    records / of `Written` records: an invariant of every operation sequence from a fresh database,
+    the overflow of a `Written` record out of the buffer included (false before the repair of D3:
+    `insert` left `written` too high) -/
+theorem counters_exact (evMax : Nat) (sel : Option Nat) (ops : List DbOp) :
+    CountersExact (run (Db.new evMax sel) ops) :=
+  counters_run _ ops (new_counters evMax sel)
 
-/-- `counters_exact`, partial: `total` AND `written` counters equal the per-class / per-type
-    counts of records / of `Written` records after every history in which no update overflows a
-    `Written` record out of the buffer (`SafeRun`: at each `update` of type `t`, if the type is at
-    capacity then its oldest record is not `Written`) -/
-theorem counters_exact_partial (evMax : Nat) (sel : Option Nat) (ops : List DbOp)
-    (hs : SafeRun (Db.new evMax sel) ops) : CountersExact (run (Db.new evMax sel) ops) :=
-  ⟨total_run _ ops (new_total evMax sel), written_run _ ops (new_written evMax sel) hs⟩
+/-- … and it is preserved by every single operation from any state that has it -/
+theorem counters_exact_preserved (db : Db) (op : DbOp) (h : CountersExact db) : CountersExact (step db op) :=
+  counters_step db op h
 
-/-- one step: every operation preserves `WrittenExact`, except an update that discards a
-    `Written` record (`StepSafe`) -/
-theorem written_exact_preserved (db : Db) (op : DbOp) (h : WrittenExact db) (hs : StepSafe db op) :
-    WrittenExact (step db op) :=
-  written_step db op h hs
+/-- one step: every operation preserves `WrittenExact` (no side condition: an update that discards
+    a `Written` record takes it out of `written` too) -/
+theorem written_exact_preserved (db : Db) (op : DbOp) (h : WrittenExact db) : WrittenExact (step db op) :=
+  written_step db op h
 
-/-- the hypothesis is satisfiable by a history that does overflow (an `Unselected` record is discarded) -/
-example : SafeRun (Db.new 1 none) [.add .binary 0 1, .update .binary 0 1 1 5, .update .binary 0 0 1 6] := by
-  decide
-
-/-- the D3 witness: binary max 1, a class-1 event carried by an unsolicited response (`Written`),
-    then a class-2 event of the same type overflows it out -/
+/-- the former D3 witness: binary max 1, a class-1 event carried by an unsolicited response
+    (`Written`), then a class-2 event of the same type overflows it out -/
 def d3Witness : List DbOp :=
   [.add .binary 0 1, .add .binary 1 2, .update .binary 0 1 1 100, .unsol true false false 300,
    .update .binary 1 1 1 200]
 
-/-- D3: after the witness `written.class1 = 1 > total.class1 = 0`; the counters are not exact and
-    the checked subtraction of `unwritten_classes` panics (`none`) -/
-theorem counters_exact_counterexample :
-    ¬ CountersExact (run (Db.new 1 none) d3Witness) ∧
-    (run (Db.new 1 none) d3Witness).unwrittenClasses = none ∧
-    (run (Db.new 1 none) d3Witness).written.c1 = 1 ∧ (run (Db.new 1 none) d3Witness).total.c1 = 0 := by
+/-- the hypotheses are satisfiable by a state in which the next update discards a `Written` record -/
+example : CountersExact (run (Db.new 1 none) (d3Witness.take 4)) ∧
+    (run (Db.new 1 none) (d3Witness.take 4)).events.map (·.st) = [.written] := by
   decide
 
-/-- D3 is healed by the next `clear` or `reset`: both re-establish `WrittenExact` from ANY state -/
+/-- the former D3 witness history now leaves exact counters: the discarded `Written` class-1 record
+    is gone from `written` as well (`written.class1 = total.class1 = 0`; before the repair
+    `written.class1 = 1`), `unwritten_classes` does not panic and reports class 2 only -/
+theorem counters_exact_former_witness :
+    CountersExact (run (Db.new 1 none) d3Witness) ∧
+    (run (Db.new 1 none) d3Witness).unwrittenClasses = some (false, true, false) ∧
+    (run (Db.new 1 none) d3Witness).written.c1 = 0 ∧ (run (Db.new 1 none) d3Witness).total.c1 = 0 := by
+  decide
+
+/-- the checked decrements of `insert` (`Count::decrement`, `-= 1`) never underflow: with exact
+    counters the record an overflow of type `t` discards is counted in `total` (type, then class) and,
+    when it is `Written`, in `written` (type, then class) -/
+theorem discard_decrements_no_underflow (db : Db) (t : PtType) (d : EvRec) (rest : List EvRec)
+    (h : CountersExact db) (hrem : removeFirstTy t db.events = some (d, rest)) :
+    1 ≤ db.total.ty t ∧ (d.cls = 1 ∨ d.cls = 2 ∨ d.cls = 3 → 1 ≤ (db.total.decTy t).cls d.cls) ∧
+    (d.st = .written →
+      1 ≤ db.written.ty t ∧ (d.cls = 1 ∨ d.cls = 2 ∨ d.cls = 3 → 1 ≤ (db.written.decTy t).cls d.cls)) :=
+  insert_decrements_no_underflow db t d rest h hrem
+
+example : removeFirstTy .binary (run (Db.new 1 none) (d3Witness.take 4)).events =
+    some ({ id := 0, index := 0, cls := 1, ty := .binary, m := { value := 1, flags := 1, time := 100 },
+            defVar := 1, selVar := 1, st := .written }, []) := by
+  decide
+
+/-- `clear` and `reset` establish `WrittenExact` from ANY state -/
 theorem written_exact_restored (db : Db) : WrittenExact db.clearWritten.1 ∧ WrittenExact db.reset :=
   ⟨clear_written db, reset_written db⟩
 
@@ -193,21 +207,36 @@ example : (((((Db.new 1 none).add .binary 0 1).1.update .binary 0 1 1 5).1).inse
 
 /-! ## C13 — internal indications -/
 
-/-
-FULL STATEMENT (false on the unchanged tree, D3): for every reachable state the class bits are
-exact.  `counters_exact_counterexample` is the witness (the subtraction panics; in release
-arithmetic the bit is wrong).
--/
-/-- `class_bits_exact`, partial: after every history without a `Written` record overflowed out,
-    `unwritten_classes` does not panic and bit c is set iff the buffer holds a class-c record
-    that is not `Written` -/
-theorem class_bits_exact_partial (evMax : Nat) (sel : Option Nat) (ops : List DbOp)
-    (hs : SafeRun (Db.new evMax sel) ops) :
+/-- `class_bits_exact`: after every operation sequence from a fresh database `unwritten_classes`
+    does not panic and bit c is set iff the buffer holds a class-c record that is not `Written` -/
+theorem class_bits_exact (evMax : Nat) (sel : Option Nat) (ops : List DbOp) :
     ∃ b1 b2 b3, (run (Db.new evMax sel) ops).unwrittenClasses = some (b1, b2, b3) ∧
       (b1 = true ↔ ∃ r ∈ (run (Db.new evMax sel) ops).events, r.cls = 1 ∧ r.st ≠ .written) ∧
       (b2 = true ↔ ∃ r ∈ (run (Db.new evMax sel) ops).events, r.cls = 2 ∧ r.st ≠ .written) ∧
       (b3 = true ↔ ∃ r ∈ (run (Db.new evMax sel) ops).events, r.cls = 3 ∧ r.st ≠ .written) :=
-  class_bits_exact_of_counters _ (counters_exact_partial evMax sel ops hs)
+  class_bits_exact_of_counters _ (counters_exact evMax sel ops)
+
+/-- … and after every single operation from any state with exact counters -/
+theorem class_bits_exact_step (db : Db) (op : DbOp) (h : CountersExact db) :
+    ∃ b1 b2 b3, (step db op).unwrittenClasses = some (b1, b2, b3) ∧
+      (b1 = true ↔ ∃ r ∈ (step db op).events, r.cls = 1 ∧ r.st ≠ .written) ∧
+      (b2 = true ↔ ∃ r ∈ (step db op).events, r.cls = 2 ∧ r.st ≠ .written) ∧
+      (b3 = true ↔ ∃ r ∈ (step db op).events, r.cls = 3 ∧ r.st ≠ .written) :=
+  class_bits_exact_of_counters _ (counters_step db op h)
+
+/-- `no_counter_underflow`: the checked subtraction `total - written` of `unwritten_classes`
+    (`Count::subtract`) never underflows on a database reached from a fresh one by any operation
+    sequence (`none` = the panic of the dev build) -/
+theorem no_counter_underflow (evMax : Nat) (sel : Option Nat) (ops : List DbOp) :
+    (run (Db.new evMax sel) ops).unwrittenClasses ≠ none := by
+  obtain ⟨b1, b2, b3, h, _⟩ := class_bits_exact evMax sel ops
+  rw [h]; simp
+
+/-- … nor after any single operation from any state with exact counters -/
+theorem no_counter_underflow_step (db : Db) (op : DbOp) (h : CountersExact db) :
+    (step db op).unwrittenClasses ≠ none := by
+  obtain ⟨b1, b2, b3, h', _⟩ := class_bits_exact_step db op h
+  rw [h']; simp
 
 /-- the overflow flag: raised by every discard, never lowered by an insert, and after a clear it
     is set iff it was set and some type is still at capacity -/
